@@ -191,6 +191,64 @@ def run_grid(case, part):
                     check_one(part, value, inst, p, c, "parse+format", sub, y)
 
 
+def run_special(case, part):
+    """zone rules with repeated wall-clock times (fold), and plain date objects through every writer"""
+    import json
+    import stix2
+    import stix2.utils as U
+    from stix2.serialization import STIXJSONEncoder
+    try:
+        import zoneinfo
+        zones = [zoneinfo.ZoneInfo(z) for z in ("Europe/Berlin", "America/New_York", "Australia/Lord_Howe")]
+    except Exception:
+        zones = []
+        part.notes["zoneinfo-unavailable"] += 1
+    # every hour and half hour of the days on which these zones repeat an hour, both folds
+    days = {"Europe/Berlin": (2020, 10, 25), "America/New_York": (2021, 11, 7), "Australia/Lord_Howe": (2021, 4, 4)}
+    for z in zones:
+        y, mo, d = days[z.key]
+        for h in range(0, 5):
+            for mi in (0, 30, 59):
+                for fold in (0, 1):
+                    value = dt.datetime(y, mo, d, h, mi, 7, 123456, tzinfo=z, fold=fold)
+                    off = int(value.utcoffset().total_seconds() // 60)         # the zone rule itself is the standard library's
+                    inst = tsfmt.instant(y, mo, d, h, mi, 7, 123456, off)
+                    for p in PRECS:
+                        for c in CONS:
+                            sub = {"kind": "special", "zone": z.key, "time": [h, mi], "fold": fold, "precision": p, "constraint": c}
+                            for entry in ("parse+format", "direct"):
+                                sub["entry"] = entry
+                                r = check_one(part, value, inst, p, c, entry, sub, y)
+                                if r is not None:
+                                    part.state(("special", z.key, h, mi, fold, p, c, r))
+                    # as a property of a real object
+                    part.evaluations += 1
+                    try:
+                        o = stix2.v21.Campaign(name="c", first_seen=value)
+                        got = json.loads(o.serialize())["first_seen"]
+                    except Exception as e:
+                        got = "%s: %s" % (type(e).__name__, str(e)[:80])
+                    exp = tsfmt.fmt(inst, "any", "exact")
+                    if got != exp:
+                        part.violation("C15/object/wrong-text/repeated-wall-clock-time", "an object property given a zone-aware datetime inside a repeated hour is written as another instant",
+                                       {"kind": "special", "zone": z.key, "time": [h, mi], "fold": fold, "entry": "v21.Campaign.first_seen"}, exp, got)
+    # plain date objects: midnight UTC, through every writer that accepts them
+    for (y, mo, d) in ((2020, 2, 29), (1, 1, 1), (9999, 12, 31), (999, 6, 15)):
+        value = dt.date(y, mo, d)
+        inst = tsfmt.instant(y, mo, d)
+        exp = tsfmt.fmt(inst, "any", "exact")
+        for name, fn in (("format_datetime(date)", lambda: U.format_datetime(value)), ("json-encoder(date)", lambda: json.loads(json.dumps({"x": value}, cls=STIXJSONEncoder))["x"]),
+                         ("custom-property(date)", lambda: json.loads(stix2.v21.Identity(name="n", x_day=value, allow_custom=True).serialize())["x_day"]),
+                         ("property(date)", lambda: json.loads(stix2.v21.Campaign(name="c", first_seen=value).serialize())["first_seen"])):
+            part.evaluations += 1
+            part.transitions += 1
+            k, r = lib_call(fn)
+            if k != "ok" or r != exp:
+                part.violation("C15/date-object/%s" % name.split("(")[0], "a plain date object is not written as midnight UTC of that day", {"kind": "special", "date": [y, mo, d], "entry": name}, exp, [k, r])
+            else:
+                part.outcome("date:match")
+
+
 def replay_grid1(case, part):
     y = case["year"]
     mo, d, h, mi, s = case["point"]
@@ -341,6 +399,8 @@ def run_case(case, part):
         run_strings_one(case, part)
     elif k in ("objects", "object1"):
         run_objects(case, part)
+    elif k == "special":
+        run_special({"kind": "special"}, part)
 
 
 def run_strings_one(case, part):
@@ -371,6 +431,8 @@ def run(run):
     run.bound = {"microseconds": "0..999999 (all)", "years": YEARS, "tzinfos": [t[0] for t in tzinfos()], "structured_us": len(structured_us(th)),
                  "string_fraction_spellings": len(STRING_FRACS), "object_classes": len(OBJECTS)}
     run.assumptions.append("oracle: integer-arithmetic formatter mc/ref/tsfmt.py (self-tested against datetime on mid-range values)")
+    run.assumptions.append("zone rules (utcoffset of a zoneinfo datetime incl. fold) are the standard library's; three zones on their repeated-hour days")
+    cases.append({"kind": "special"})
     run.pmap(run_case, cases, order_independent=True)
     run.part.sample({"kind": "sweep", "us": 129999, "precision": "millisecond", "constraint": "exact", "expected": "2017-03-04T05:06:07.129Z"})
     run.part.sample({"kind": "grid1", "year": 9999, "tz": "-12:00", "point": [12, 31, 23, 59, 59], "us": 999999, "note": "leaves 0001-9999: either outcome"})
